@@ -242,8 +242,16 @@ NeverFarAhead == n.cur <= Min2(n.tk, n.lfbr) + Ahead + 1 \/ n.cur <= 1
 \* it signs at most one block per (round, generator rank) at a time and only blocks of generators with the round's seed
 OwnTicketSound ==
   \A r \in Rounds : n.R[r].own # NoBlock => (Self \in n.K[n.R[r].own].tk /\ B[n.R[r].own].r = r)
-\* it moves to round r + 1 only over a notarized block of round r
-MovedOnNotarized == \A r \in Rounds : r < n.cur => (n.R[r].nb # <<>> \/ r \notin DOMAIN n.R)
+\* it enters a round only over a notarized block of the round before (rounds further back may still lack one:
+\* a node that learns a later round's notarization jumps ahead)
+MovedOnNotarized == n.cur > 1 => (Ex(n, n.cur - 1) /\ n.R[n.cur - 1].nb # <<>>)
+
+(* reachability probes (NOT properties: each is expected to be violated; used once to see that the bounds of a *)
+(* configuration let the interesting situations happen)                                                      *)
+ReachFinalized == n.lfb = Genesis
+ReachRestartedSeed == \A r \in Rounds : ~(n.R[r].toc > 0 /\ n.R[r].seed # NoSeed)
+ReachTwoNotarized == \A r \in Rounds : Len(n.R[r].nb) < 2
+ReachBlockedAhead == \A r \in Rounds : ~(r \in n.movw /\ ~NotAhead(n, r) /\ n.mov = {} /\ n.fq = <<>>)
 
 (* liveness under weak fairness of the node's own steps: a notarized current round that is not ahead of the *)
 (* sharders is left                                                                                          *)
